@@ -165,6 +165,8 @@ func (jr *jpegReader) nextMarker() bool {
 			jr.marker = markerType(jr.buf[1])
 			return true
 		}
+		// No SOI seen yet: this 0xFF does not start an image, keep searching.
+		jr.err = jr.discard(1)
 	}
 	return false
 }
